@@ -84,6 +84,8 @@ def _hoist_one(top):
     def find(n, is_top):
         if not isinstance(n, dict) or n.get("k") == "Closure":
             return None
+        if n.get("k") == "Loop" and _has_ret(n):
+            raise Cannot("return inside a loop")
         if not is_top and n.get("k") in ("Match", "If", "Block") and _has_ret(n):
             return n
         for key, v in n.items():
@@ -226,6 +228,8 @@ def elim_value(e, like, ty):
     if e is None or not _has_ret(e):
         return e
     k = e.get("k")
+    if k == "Loop":
+        raise Cannot("return inside a loop")
     if k in ("Use", "Type"):
         return dict(e, e=elim_value(e["e"], like, ty))
     if k == "Ret":
